@@ -5,10 +5,10 @@
    [sat G x v]: v assigns a bit to every wire, the input wires carry x and
    every live gate's equation holds.  [Inv x v G] = sat + every Zero/One
    annotation of a wire is right for v + cc.ZeroWire()/cc.OneWire() exist. *)
-From Coq Require Import List Bool Arith NArith.
+From Coq Require Import List Bool Arith NArith ZArith.
 From Mpc Require Import Circuit.Circuit Circuit.Passes Circuit.PassesProof Circuit.PassesBFS
   Circuit.PassesIO Circuit.PassesTV Circuit.PassesInv Circuit.PassesPrune Circuit.PassesPanic
-  Circuit.PassesExamples.
+  Circuit.PassesExamples Circuit.PassesLazy Circuit.PassesPanicCP Circuit.PassesLazyExamples.
 Import ListNotations.
 From Mpc Require Gen.State Base.StateExpected Base.StateCheck Base.StatePkgs.
 
@@ -234,12 +234,147 @@ Print Assumptions C09_acyclic_from_construction.
    assignment is target independent): the error code after Compile is the one
    ConstPropagate left.  Prune never underflows NumOutputs, Compile's queue
    never outlives its fuel and no output wire is assigned twice.
-   ConstPropagate itself is not covered (see props/C09.json). *)
+   (ConstPropagate itself: C09_no_panic_const_propagate below.) *)
 Theorem C09_no_panic :
   forall (do_prune : bool) G, wfg G -> wfb G -> wfx G ->
     gerr (cg (compile_assign (optimize do_prune G))) = gerr (const_propagate G).
 Proof. exact no_panic_after_cp. Qed.
 Print Assumptions C09_no_panic.
+
+(* ConstPropagate reaches none of its panic sites, for every freshly built
+   graph whose output-gate lists are exact (wfe: no entry beyond the consumer
+   slots — Allocator.BinaryGate/INVGate call AddOutput once per slot):
+   - Wire.RemoveOutput's counter underflow ("wire outputs overflow") at its
+     three call sites (Gate.ReplaceInput, the A and the B substitution block):
+     the counter is >= the number of live consumer slots, and the gate at hand
+     holds one;
+   - Gate.ReplaceInput's final else ("... is not input for gate ..."): stale
+     list entries exist (RemoveOutput never shortens a list) but only on wires
+     that carry a value, and Gate.ShortCircuit walks the list of the output of
+     the gate being processed, which is unvalued: outputs of gates still to be
+     processed are unvalued or a constant wire, and the gates producing the
+     constants and INV(in0) read wires that never get a value, so they take no
+     branch of the switch;
+   - Wire.SetInput ("wire input gate already set"): only reached through
+     cc.ZeroWire()/cc.OneWire() creating a constant, which does not happen when
+     both exist (wfg).
+   With C09_no_panic: no pass of the pipeline panics. *)
+Theorem C09_no_panic_const_propagate :
+  forall G, wfg G -> wfb G -> wfx G -> wfe G -> gerr (const_propagate G) = gerr G.
+Proof. exact const_propagate_no_panic. Qed.
+Print Assumptions C09_no_panic_const_propagate.
+
+Theorem C09_no_panic_pipeline :
+  forall (do_prune : bool) G, wfg G -> wfb G -> wfx G -> wfe G ->
+    gerr (const_propagate G) = gerr G /\
+    gerr (cg (compile_assign (optimize do_prune G))) = gerr G.
+Proof. exact no_panic_pipeline. Qed.
+Print Assumptions C09_no_panic_pipeline.
+
+(* Index expressions that the model makes total by construction.
+   cc.InputWires[0] (InvI0Wire/ZeroWire/OneWire; hd 0 in the model) is in range
+   on every well-formed graph: cc.InputWires is not empty.  stats[g.Op]++
+   (ConstPropagate, ShortCircuitXORZero, Compile): every operation of the
+   model's gate type is an index below circuit.Count <= MaxWidth, the bound of
+   circuit.Stats = [MaxWidth+1]uint64 (constants regenerated from the source).
+   The remaining index/slice expressions of the four passes have no failure
+   mode in the model because of their guards in the Go text: cc.pending[0] and
+   cc.pending[1:] under len(cc.pending) > 0 (pattern match in [drain]);
+   w.gates[0], w.gates[0:1], w.gates[1:] under the len tests of wire.go;
+   n[nPos], n[nPos:] and cc.Gates[i] in Prune (nPos is decremented at most
+   len(cc.Gates) times; [prune_sweep] is a fold).  They are covered by the
+   correspondence check only. *)
+Theorem C09_input0_in_range :
+  forall G, wfg G -> In (input0 G) (gins G) /\ 0 < length (gins G).
+Proof. exact input0_in_range. Qed.
+Print Assumptions C09_input0_in_range.
+
+Theorem C09_stats_index_in_range :
+  forall o : op, (0 <= Mpc.Circuit.RunC09.Z_of_op o)%Z /\
+                 (Mpc.Circuit.RunC09.Z_of_op o < Mpc.Gen.Consts.circuit_Count)%Z /\
+                 (Mpc.Gen.Consts.circuit_Count <= Mpc.Gen.Consts.circuit_MaxWidth)%Z /\
+                 Mpc.Circuit.RunC09.op_of_Z9 (Mpc.Circuit.RunC09.Z_of_op o) = o.
+Proof. exact stats_index_in_range. Qed.
+Print Assumptions C09_stats_index_in_range.
+
+(* Graphs on which cc.ZeroWire()/cc.OneWire() were never called (both are
+   created lazily by compiler.go; Wire.SetValue is called by them and by
+   ConstPropagate only, so no wire carries a value: [unvalued]).  For EVERY
+   such graph — no well-formedness needed — ConstPropagate and
+   ShortCircuitXORZero are the identity: no switch branch is taken and neither
+   substitution block (the only callers of ZeroWire/OneWire inside the passes)
+   is entered, so no constant is created lazily and no wire or gate is
+   allocated. *)
+Theorem C09_unvalued_passes_identity :
+  forall G, unvalued G ->
+    const_propagate G = G /\ short_circuit_xor_zero G = G /\
+    (forall do_prune : bool, optimize do_prune G = (if do_prune then prune G else G)).
+Proof.
+  exact (fun G U => conj (const_propagate_unvalued G U)
+                   (conj (short_circuit_xor_zero_unvalued G U) (fun p => optimize_unvalued p G U))).
+Qed.
+Print Assumptions C09_unvalued_passes_identity.
+
+(* C09 at the pass level for graphs built WITHOUT the constant wires: for all
+   prune flags, both targets, every freshly built graph in dependency order
+   (wfg0 = wfg without the clause about the constants, + wfb + wfx) on which no
+   wire carries a value, and every input, the circuit produced by the pipeline
+   computes the meaning of the graph.  C09_options needs both constants to
+   exist; this theorem covers the graphs on which neither was created. *)
+Theorem C09_options_no_constants :
+  forall (do_prune : bool) t G x,
+    wfg0 G -> wfb G -> wfx G -> unvalued G -> length x = length (gins G) ->
+    eval_plain (pipeline do_prune t G) x = graph_eval G x.
+Proof. exact pipeline_correct_unvalued. Qed.
+Print Assumptions C09_options_no_constants.
+
+(* ... the graph handed to Compile satisfies Compile's precondition, and no
+   pass panics (ConstPropagate included) *)
+Theorem C09_no_constants_cwf_no_panic :
+  forall (do_prune : bool) G, wfg0 G -> wfb G -> wfx G -> unvalued G ->
+    cwf (optimize do_prune G) /\
+    gerr (const_propagate G) = gerr G /\
+    gerr (cg (compile_assign (optimize do_prune G))) = gerr G.
+Proof.
+  exact (fun p G WF FB X U => conj (optimize_cwf_unvalued p G WF FB X U) (no_panic_unvalued p G WF FB X U)).
+Qed.
+Print Assumptions C09_no_constants_cwf_no_panic.
+
+(* The lazy creation itself (compiler.go InvI0Wire/ZeroWire/OneWire), for
+   EVERY graph, whichever of the three wires exist already: its only panic
+   site, Wire.SetInput "wire input gate already set", is never reached — the
+   output wire of each new gate comes straight from Calloc.Wire().  (This is
+   the additional site of the graphs with exactly one constant, on which
+   ConstPropagate calls the creation itself.) *)
+Theorem C09_constant_creation_no_panic :
+  forall G, gerr (fst (inv_i0_wire G)) = gerr G /\
+            gerr (fst (zero_wire G)) = gerr G /\ gerr (fst (one_wire G)) = gerr G.
+Proof. exact creation_no_panic. Qed.
+Print Assumptions C09_constant_creation_no_panic.
+
+(* wfg is wfg0 plus the clause about the constants *)
+Theorem C09_wfg_wfg0 : forall G, wfg G -> wfg0 G.
+Proof. exact wfg_wfg0. Qed.
+Print Assumptions C09_wfg_wfg0.
+
+(* The added hypotheses are inhabited: the example with constants satisfies
+   wfe; a constant-free example (fan-out, an unused INV that Prune kills, two
+   flagged sink wires as outputs, non-constant outputs) satisfies wfg0, wfb,
+   wfx and unvalued. *)
+Theorem C09_lazy_hypotheses_inhabited :
+  wfe ex_graph /\
+  wfg0 ex0_graph /\ wfb ex0_graph /\ wfx ex0_graph /\ unvalued ex0_graph /\
+  gzero ex0_graph = None /\ gone ex0_graph = None /\
+  (let G3 := optimize true ex0_graph in
+   existsb (fun g => ndead (gn G3 g)) (seq 0 (gnn G3)) = true /\
+   length (gorder G3) < length (gorder ex0_graph)).
+Proof.
+  exact (conj ex_wfe (conj ex0_wfg0 (conj ex0_wfb (conj ex0_wfx (conj ex0_unvalued
+          (conj (proj1 (proj2 (proj2 (proj2 ex0_shape))))
+          (conj (proj1 (proj2 (proj2 (proj2 (proj2 ex0_shape)))))
+                (conj (proj1 ex0_dead_gate) (proj1 (proj2 ex0_dead_gate)))))))))).
+Qed.
+Print Assumptions C09_lazy_hypotheses_inhabited.
 
 (* The hypotheses are inhabited: the example graph (constants, fan-out, an
    XOR with zero, an OR with one, an unused gate) satisfies wfg, wfb and cwf,
